@@ -1,6 +1,7 @@
 package main
 
 import (
+	"strconv"
 	"bytes"
 	"context"
 	"fmt"
@@ -244,15 +245,43 @@ func solveOne(u *UnitResult, o *OblResult, cfg solveConfig) (disagreement string
 			relaxed bool
 			r       solveOut
 		}
-		n := len(solvers)
-		ch := make(chan res, n+2)
-		for _, s := range solvers {
-			go func(s solverSpec) { ch <- res{s.name, false, runSolverCtx(ctx, s, file, cfg.timeoutS)} }(s)
+		var chSend func(chan res, res)
+		// Staged race (keeps the machine usable when several checks run at once): z3-new and its E-matching-only
+		// variant start at once and decide most obligations in well under a second; the other racers join only if
+		// nothing has answered by then. Every racer still gets the full time limit from its own start.
+		ch := make(chan res, len(solvers)+4)
+		chSend = func(c chan res, r res) { c <- r }
+		stage := func(d time.Duration, name string, relaxed bool, run func() solveOut) {
+			go func() {
+				if d > 0 {
+					select {
+					case <-time.After(d):
+					case <-ctx.Done():
+						ch2 := res{name, relaxed, solveOut{verdict: "skipped"}}
+						chSend(ch, ch2)
+						return
+					}
+				}
+				chSend(ch, res{name, relaxed, run()})
+			}()
+		}
+		n := 0
+		for i, s := range solvers {
+			s := s
+			d := time.Duration(0)
+			if i > 0 {
+				d = stageDelay(1)
+			}
+			if s.name == "z3" {
+				d = stageDelay(2)
+			}
+			n++
+			stage(d, s.name, false, func() solveOut { return runSolverCtx(ctx, s, file, cfg.timeoutS) })
 		}
 		// E-matching only (no model-based quantifier instantiation): decides many quantifier-heavy goals instantly;
 		// only its 'unsat' is used
 		n++
-		go func() {
+		stage(0, "z3-new(ematch)", false, func() solveOut {
 			em := solverSpec{"z3-new(ematch)", func(f string, t int) []string {
 				if os.Getenv("GOVC_EMATCH_AUTO") != "" {
 					return []string{"z3-new", fmt.Sprintf("-T:%d", t), "smt.mbqi=false", f}
@@ -263,14 +292,27 @@ func solveOne(u *UnitResult, o *OblResult, cfg solveConfig) (disagreement string
 			if r.verdict != "unsat" {
 				r.verdict = "unknown"
 			}
-			ch <- res{em.name, false, r}
-		}()
+			return r
+		})
+		// no array extensionality axioms (fewer axioms: only its 'unsat' is used): units with many heap families
+		// otherwise spend their time in extensionality splits between the family arrays
+		n++
+		stage(stageDelay(1), "z3-new(noext)", false, func() solveOut {
+			ne := solverSpec{"z3-new(noext)", func(f string, t int) []string {
+				return []string{"z3-new", fmt.Sprintf("-T:%d", t), "smt.array.extensional=false", f}
+			}}
+			r := runSolverCtx(ctx, ne, file, cfg.timeoutS)
+			if r.verdict != "unsat" {
+				r.verdict = "unknown"
+			}
+			return r
+		})
 		rq := u.ctx.QueryX(o.Prefix, o.Goal, true, true)
 		if rq != q {
 			rfile := strings.TrimSuffix(file, ".smt2") + ".relaxed.smt2"
 			if os.WriteFile(rfile, []byte(rq), 0o644) == nil {
 				n++
-				go func() { ch <- res{solvers[0].name + "(relaxed)", true, runSolverCtx(ctx, solvers[0], rfile, cfg.timeoutS)} }()
+				stage(stageDelay(1), solvers[0].name+"(relaxed)", true, func() solveOut { return runSolverCtx(ctx, solvers[0], rfile, cfg.timeoutS) })
 			}
 		}
 		t0 := time.Now()
@@ -282,6 +324,9 @@ func solveOne(u *UnitResult, o *OblResult, cfg solveConfig) (disagreement string
 			select {
 			case x := <-ch:
 				pending--
+				if x.r.verdict == "skipped" {
+					continue
+				}
 				o.Tried = append(o.Tried, x.name+":"+x.r.verdict)
 				if !x.relaxed {
 					verdicts = append(verdicts, x.r.verdict)
@@ -352,4 +397,18 @@ func solveOne(u *UnitResult, o *OblResult, cfg solveConfig) (disagreement string
 		return fmt.Sprintf("%s: solvers disagree (%s)", o.Name, strings.Join(o.Tried, ", "))
 	}
 	return ""
+}
+
+// stageDelay: start delay of the racers of stage k (GOVC_STAGE_MS overrides the unit of 1000 ms; 0 = all at once).
+func stageDelay(k int) time.Duration {
+	unit := 1000
+	if v := os.Getenv("GOVC_STAGE_MS"); v != "" {
+		if n, err := strconv.Atoi(v); err == nil && n >= 0 {
+			unit = n
+		}
+	}
+	if k == 2 {
+		return time.Duration(3*unit) * time.Millisecond
+	}
+	return time.Duration(unit) * time.Millisecond
 }
